@@ -342,7 +342,8 @@ func runC15(r *Run) {
 					return
 				}
 				_, n := calleeName(c)
-				if (strings.HasPrefix(n, "sort.") || strings.HasPrefix(n, "slices.Sort")) && ReachesAfter(ap, in) {
+				if (strings.HasPrefix(n, "sort.") || strings.HasPrefix(n, "slices.Sort")) && ReachesAfter(ap, in) && len(c.Args) > 0 &&
+					sameSliceVar(callCommon(ap).Args[0], c.Args[0]) {
 					sorted = true
 				}
 			})
@@ -687,4 +688,55 @@ func taintCanary() bool {
 	s := &taint{}
 	s.merge(&taint{scalar: true})
 	return s.scalar
+}
+
+// sliceRoots follows a slice value back to where its backing variable comes
+// from (local variable cell, make, or an opaque producer), through appends,
+// phis, re-slicing, loads and interface boxing.
+func sliceRoots(v ssa.Value, seen map[ssa.Value]bool, out map[ssa.Value]bool) {
+	if seen[v] {
+		return
+	}
+	seen[v] = true
+	switch x := v.(type) {
+	case *ssa.MakeInterface:
+		sliceRoots(x.X, seen, out)
+	case *ssa.ChangeType:
+		sliceRoots(x.X, seen, out)
+	case *ssa.Slice:
+		sliceRoots(x.X, seen, out)
+	case *ssa.Phi:
+		for _, e := range x.Edges {
+			sliceRoots(e, seen, out)
+		}
+	case *ssa.UnOp:
+		if x.Op == token.MUL {
+			out[x.X] = true // the variable cell
+			return
+		}
+		out[v] = true
+	case *ssa.Call:
+		if b, ok := x.Call.Value.(*ssa.Builtin); ok && b.Name() == "append" {
+			sliceRoots(x.Call.Args[0], seen, out)
+			return
+		}
+		out[v] = true
+	default:
+		out[v] = true
+	}
+}
+
+func sameSliceVar(a, b ssa.Value) bool {
+	ra, rb := map[ssa.Value]bool{}, map[ssa.Value]bool{}
+	sliceRoots(a, map[ssa.Value]bool{}, ra)
+	sliceRoots(b, map[ssa.Value]bool{}, rb)
+	for v := range ra {
+		if c, ok := v.(*ssa.Const); ok && c.IsNil() {
+			continue
+		}
+		if rb[v] {
+			return true
+		}
+	}
+	return false
 }
